@@ -225,6 +225,7 @@ func (c *Ctx) builtin(name string, e *ast.CallExpr) Value {
 			v := x.zeroValue(T)
 			v.Len = n.S
 			v.IsNil = False
+			v.Own = true
 			return v
 		case KMap:
 			for _, a := range e.Args[1:] {
@@ -255,6 +256,8 @@ func (c *Ctx) builtin(name string, e *ast.CallExpr) Value {
 		if e.Ellipsis.IsValid() {
 			t := c.eval(e.Args[1])
 			r := Value{Kind: KSlice, T: T, Arr: Fresh("append.arr", s.Arr.Sort), Len: Add(s.Len, t.Len), IsNil: And(s.IsNil, Eq(t.Len, IntLit(0)))}
+			// appending to a nil slice, or to one this function allocated, gives a store this function owns
+			r.Own = s.Own || s.IsNil == True || isNilSliceExpr(e.Args[0])
 			i := BVar("i!app", SInt)
 			x.addFact(r.Arr, And(
 				Forall([]*Term{i}, Implies(And(Le(IntLit(0), i), Lt(i, s.Len)), Eq(Select(r.Arr, i), Select(s.Arr, i)))),
@@ -1076,6 +1079,21 @@ func (c *Ctx) intrinsic(o *types.Func, recv Value, args []Value, e *ast.CallExpr
 		return c.arbitrary("binary.Uint16", rt)
 	case "(*encoding/gob.Encoder).Encode":
 		return c.arbitrary("gob.Encode", rt)
+	case "(*bytes.Buffer).Bytes":
+		// the bytes are the buffer's own store: the caller owns them exactly when the buffer is a value declared in the
+		// body of the function under verification (not a parameter, a field, a global or something a call returned)
+		v := c.arbitrary("buffer.bytes", rt)
+		if se, ok := e.Fun.(*ast.SelectorExpr); ok && c.isBodyLocalValue(se.X) {
+			v.Own = true
+		}
+		return v
+	case "bytes.Clone", "slices.Clone":
+		v := c.arbitrary("clone", rt)
+		if len(args) == 1 && args[0].Kind == KSlice {
+			v.Arr, v.Len, v.IsNil = args[0].Arr, args[0].Len, args[0].IsNil
+		}
+		v.Own = true
+		return v
 	case "(*go.uber.org/zap.Logger).Fatal", "os.Exit":
 		// the process ends here (A5): the path is not continued
 		c.st.assume(False)
@@ -1128,6 +1146,49 @@ func (k *Contracts) clockTags() []string {
 		}
 	}
 	return nil
+}
+
+// isNilSliceExpr: nil, []T(nil) or []T{}
+func isNilSliceExpr(e ast.Expr) bool {
+	switch t := e.(type) {
+	case *ast.Ident:
+		return t.Name == "nil"
+	case *ast.CallExpr:
+		if len(t.Args) == 1 {
+			if _, ok := t.Fun.(*ast.ArrayType); ok {
+				return isNilSliceExpr(t.Args[0])
+			}
+		}
+	case *ast.CompositeLit:
+		_, ok := t.Type.(*ast.ArrayType)
+		return ok && len(t.Elts) == 0
+	case *ast.ParenExpr:
+		return isNilSliceExpr(t.X)
+	}
+	return false
+}
+
+// isBodyLocalValue: e names a variable of non-pointer type declared inside the body of the function being executed.
+func (c *Ctx) isBodyLocalValue(e ast.Expr) bool {
+	id, ok := e.(*ast.Ident)
+	if !ok {
+		return false
+	}
+	if c.fr == nil || c.fr.fi == nil {
+		return false
+	}
+	v, ok := c.fr.info.Uses[id].(*types.Var)
+	if !ok || v.IsField() {
+		return false
+	}
+	if _, isPtr := v.Type().Underlying().(*types.Pointer); isPtr {
+		return false
+	}
+	if c.fr.fi.Decl == nil || c.fr.fi.Decl.Body == nil {
+		return false
+	}
+	b := c.fr.fi.Decl.Body
+	return v.Pos() > b.Pos() && v.Pos() < b.End()
 }
 
 var _ = token.NoPos
